@@ -27,7 +27,7 @@ RULE = (
     "other compiles; non-trivial = pattern with >= 1 field spec; distinct = distinct (pattern text, node fingerprint)"
 )
 ASSUMPTIONS = ["sequence patterns applied to str-valued fields and field names that are properties/methods are not generated (don't-care)"]
-MUST_SEE = ["empty_rule_selection", "regex_inner_whitespace", "rules_given_as_iter", "rules_given_as_gen", "regex_on_hash_equal_values", 
+MUST_SEE = ["pattern_after_class_redefinition", "empty_rule_selection", "regex_inner_whitespace", "rules_given_as_iter", "rules_given_as_gen", "regex_on_hash_equal_values", 
     "tail_vs_too_short", "capture_on_seq_with_tail", "two_any_captures", "var_node_other_origin", "second_alternative_subclass",
     "matches", "mismatches", "reasked", "multi_questions", "regex_middle_only", "tail_capture", "empty_seq_vs_nonempty", "reasked_after_rejected",
 ]
@@ -304,3 +304,23 @@ def run_shard(ctx):
             exp = [_re2.match(rx, lf.s) is not None for lf in ws_leaves]
             if got != exp:
                 ctx.violation("verdict", "a regex literal is not applied as written (white space inside the quotes matters)", {"pattern": text, "got": got, "expected": exp, "values": ws_vals})
+
+    # ---- a class defined again under its name between two (textually different) patterns naming it ----
+    src = f"@dataclass(frozen=True)\nclass {P}Again8({P}Expr):\n    v: int = 0\n"
+    prev = None
+    for gen_no in range(3):
+        exec(compile(src, f"<c08 again {gen_no}>", "exec", dont_inherit=True), U.module.__dict__)
+        cur = U.module.__dict__[f"{P}Again8"]
+        node = cur(v=gen_no)
+        for text in (f"({P}Again8 @v -> g{'x' * gen_no})", f"({P}Again8 @v=\"{gen_no}\")", f"({P}Un|{P}Again8 @v=\"{gen_no}$\")"):  # (texts differ per generation: the same text may answer from the matcher cache)
+            m, msg = NodeMatcher.from_pattern(text)
+            ctx.evaluations += 1
+            ctx.count("pattern_after_class_redefinition")
+            if m is None:
+                ctx.violation("well-formed-rejected", f"pattern rejected: {msg[:200]}", {"pattern": text})
+                continue
+            ok_new = m.match(node)[0]
+            ok_old = m.match(prev)[0] if prev is not None else False
+            if ok_new is not True or ok_old is not False:
+                ctx.violation("verdict", "a pattern compiled after its class was defined again does not denote the class now bearing the name", {"pattern": text, "generation": gen_no, "matches_instance_of_current_class": ok_new, "matches_instance_of_previous_class": ok_old})
+        prev = node
